@@ -13,7 +13,7 @@ from ..famrun import new_res
 
 ID = 'C07'
 LEVEL = 'exploration'
-RULE = ('every subset (size 2..4) of a 16-entry terminal menu (strings, regexps, case-insensitive flags) x priority '
+RULE = ('every subset (size 2..4) of a 17-entry terminal menu (strings, regexps, case-insensitive and verbose flags) x priority '
         'assignment x two naming schemes x str/bytes x every input up to the bound is lexed by Lark(lexer=basic).lex and '
         'compared token by token with a reference lexer implementing the documented order and keyword exception; a '
         '130-terminal set is lexed natively and with a shim re module that enforces the 100-group limit (chunking path); '
@@ -31,6 +31,7 @@ MENU = [
     ('str', 'if', '', None), ('str', 'if', 'i', None), ('str', 'ba', '', None),
     ('re', 'a+', '', INF), ('re', '[ab]+', '', INF), ('re', 'ab?', '', 2), ('re', '[a-z]+', '', INF),
     ('re', '[a-z]+', 'i', INF), ('re', 'i[a-z]', '', 2), ('re', '[abc]', '', 1), ('re', 'ab|a', '', 2), ('re', 'b+a?', '', INF),
+    ('re', 'a  ', 'x', 1),      # verbose regexp: the blanks are not part of the pattern (true maximal width 1, written length 3)
 ]
 NAMES = ('TA', 'TB', 'TC', 'TD')
 
@@ -193,6 +194,26 @@ def check_set(combo, pr, rev, inputs, res, only=None):
                 bad('tiling-ignore', 'tiling', w_, got, input=w, ignore=ign)
     else:
         bad('construction', 'construction', 'constructed', repr(r[1])[:300], ignore=ign)
+    # the same with the ignored terminal written inline (`%ignore "x"` / `%ignore /x/`): an anonymous terminal of default
+    # priority named __IGNORE_0
+    if not related and it.prio == 0:
+        inl = TDef('__IGNORE_0', it.kind, it.value, it.flags, 0, it.width)
+        tdefs2 = tdefs[:-1] + [inl]
+        gtext = '\n'.join(['start: (%s)*' % ' | '.join(t.name for t in tdefs[:-1])] + [t.text() for t in tdefs[:-1]] +
+                          ['%%ignore %s' % gram.pat_text(it.pat)]) + '\n'
+        r = larkio.build(gtext, parser='lalr', lexer='basic')
+        res['evals'] += 1
+        if r[0] == 'ok':
+            pl = OneLexer(r[1])
+            for w in inputs:
+                want = reflex.lex_basic(tdefs2, (inl.name,), w)
+                got = lark_lex(pl, w)
+                res['evals'] += 1
+                w_ = ('ok', want[1]) if want[0] == 'ok' else ('err', want[1])
+                if got != w_:
+                    bad('tiling-ignore-inline', 'tiling', w_, got, input=w, ignore_inline=gram.pat_text(it.pat))
+        else:
+            bad('construction', 'construction', 'constructed', repr(r[1])[:300], ignore_inline=gram.pat_text(it.pat))
     # contextual clause
     if len(tdefs) > 3 or overlapping_regexps(tdefs, inputs):
         res['counters']['contextual clause skipped: overlapping regexps or 4 terminals'] += 1
